@@ -209,6 +209,7 @@ mainloop:
 
 func (c *controller) distributeEvents(events []Event) {
 	for _, evt := range events {
+		verifYield("controller.distributeEvents")
 		c.subscription.send(evt)
 	}
 	c.log.Debugf("distribute events: %v events", len(events))
